@@ -1,11 +1,1029 @@
-//! C09 -- not built yet (stub so the crate layout is stable).
-use crate::engine::report::{Ctx, Report};
-use serde_json::Value;
+//! C09 -- text writing stays inside its surface, ignores chunking and loses no cell.
+//!
+//! Bounded exhaustive exploration of the real writers:
+//!
+//! * alphabet: 12 symbols = the 11 cell kinds of DESIGN.md with the two zero-width characters
+//!   (U+0301, NUL) kept as separate symbols because they differ at the byte level;
+//! * every symbol sequence up to length 4 (quick) / 6 (thorough);
+//! * target = view of h in 1..=3 x w in 1..=5 inside a 7x10 canvas of sentinel cells in four
+//!   placements (plain, offset, strided with both strides doubled, transposed), built by the
+//!   harness with `SurfaceMutView::new` from an explicit `Shape`;
+//! * wraps on/off, glyph capability on/off, initial cursor origin / last column;
+//! * paths: `put_cell`, `io::Write for TerminalWriter`, `utf8_writer()`, `tty_writer()` (SGR tokens
+//!   between the characters), `Text` view layout + render.
+//!
+//! Oracles (from the statement):
+//!  1. containment: every canvas cell that does not belong to the view equals the sentinel;
+//!  2. chunk independence: for the byte paths every partition of the byte string into `write`
+//!     calls gives the canvas of the single write;
+//!  3. text: lay out with `BoxConstraint::loose(BIG, W)`, W in 1..=6, render into a surface of
+//!     exactly the reported size, scan row-major: the cells whose character is not the sentinel
+//!     character are exactly the printable cells of the text, once, in order; with wraps off
+//!     exactly the cells whose column range exceeds W are missing (column model: tab stops
+//!     every 8 columns clipped at the right edge, newline resets the column).
+//! Additional differential oracles between different library paths: put_cell / io::Write /
+//! utf8_writer give the same canvas, tty_writer the same cell kinds; rendering the text into a
+//! taller surface puts nothing below the reported height.
+use crate::engine::catch;
+use crate::engine::report::{Ctx, Report, Samples, Tier, Violations};
+use crate::engine::util::{cuts_from_mask, hash64, partitions_upto_cuts};
+use rayon::prelude::*;
+use serde_json::{json, Value};
+use std::collections::HashSet;
+use std::io::Write;
+use std::sync::atomic::{AtomicU64, Ordering};
+use std::sync::{LazyLock, Mutex};
+use std::time::Duration;
+use surf_n_term::encoder::ColorDepth;
+use surf_n_term::render::CellKind;
+use surf_n_term::view::{BoxConstraint, Text, Tree, View, ViewContext, ViewLayoutStore};
+use surf_n_term::{
+    Cell, CellWrite, Error, Face, FaceAttrs, FillRule, Glyph, Image, Position, Shape, Size, Surface,
+    SurfaceMut, SurfaceMutView, SurfaceOwned, Terminal, TerminalCaps, TerminalCommand, TerminalEvent,
+    TerminalSize, TerminalSurfaceExt, TerminalWaker, RGBA,
+};
 
-pub fn run(_ctx: &Ctx) -> Result<Report, String> {
-    Err("C09: check not built yet".into())
+// ---------------------------------------------------------------------------------------------
+// harness terminal: the only public way to obtain a ViewContext with chosen capabilities
+// ---------------------------------------------------------------------------------------------
+
+pub struct CtxTerm {
+    caps: TerminalCaps,
+    size: TerminalSize,
 }
 
-pub fn replay(_w: &Value) -> Result<(bool, String), String> {
-    Err("C09: check not built yet".into())
+impl CtxTerm {
+    /// 10x10 cells, 100x50 pixels => 10x5 pixels per cell
+    pub fn new(glyphs: bool) -> Self {
+        Self {
+            caps: TerminalCaps { depth: ColorDepth::TrueColor, glyphs, kitty_keyboard: false },
+            size: TerminalSize { cells: Size::new(10, 10), pixels: Size::new(100, 50) },
+        }
+    }
+}
+
+impl Write for CtxTerm {
+    fn write(&mut self, buf: &[u8]) -> std::io::Result<usize> {
+        Ok(buf.len())
+    }
+    fn flush(&mut self) -> std::io::Result<()> {
+        Ok(())
+    }
+}
+
+impl Terminal for CtxTerm {
+    fn execute(&mut self, _cmd: TerminalCommand) -> Result<(), Error> {
+        Ok(())
+    }
+    fn waker(&self) -> TerminalWaker {
+        TerminalWaker::new(|| Ok(()))
+    }
+    fn poll(&mut self, _timeout: Option<Duration>) -> Result<Option<TerminalEvent>, Error> {
+        Ok(None)
+    }
+    fn dyn_ref(&mut self) -> &mut dyn Terminal {
+        self
+    }
+    fn size(&self) -> Result<TerminalSize, Error> {
+        Ok(self.size)
+    }
+    fn position(&mut self) -> Result<Position, Error> {
+        Ok(Position::origin())
+    }
+    fn frames_pending(&self) -> usize {
+        0
+    }
+    fn frames_drop(&mut self) {}
+    fn capabilities(&self) -> &TerminalCaps {
+        &self.caps
+    }
+}
+
+/// ViewContext with 10x5 pixels per cell and the requested glyph capability.
+pub fn view_ctx(glyphs: bool) -> ViewContext {
+    let term = CtxTerm::new(glyphs);
+    let ctx = ViewContext::new(&term).expect("harness terminal cannot fail");
+    assert_eq!(ctx.has_glyphs(), glyphs);
+    assert_eq!(ctx.pixels_per_cell(), Size::new(10, 5));
+    ctx
+}
+
+pub const PPC: Size = Size { height: 10, width: 5 };
+
+/// Image occupying `h x w` cells: one pixel more than `h-1 x w-1` cells (rounding up is exercised).
+pub fn image_cells(h: usize, w: usize, shade: u8) -> Image {
+    let size = Size::new((h - 1) * PPC.height + 1, (w - 1) * PPC.width + 1);
+    let data: Vec<RGBA> = (0..size.height * size.width).map(|i| RGBA::new(shade, (i % 251) as u8, 7, 255)).collect();
+    Image::from_parts(data.into(), Shape::from(size))
+}
+
+pub fn make_glyph(size: Size, fallback: &str) -> Glyph {
+    let path = "M1,1 h18 v18 h-18 Z".parse().expect("glyph path");
+    Glyph::new(path, FillRule::default(), None, size, fallback.to_string(), None)
+}
+
+pub const SENT_CHAR: char = '#';
+
+pub fn sentinel() -> Cell {
+    Cell::new_char(
+        Face::new(Some(RGBA::new(1, 2, 3, 255)), Some(RGBA::new(250, 251, 252, 255)), FaceAttrs::BOLD),
+        SENT_CHAR,
+    )
+}
+
+// ---------------------------------------------------------------------------------------------
+// alphabet
+// ---------------------------------------------------------------------------------------------
+
+/// Face of every written cell and of the writers: not the default one, so that the face fill of
+/// cells skipped by a tab/newline is observable wherever it lands.
+fn pen() -> Face {
+    Face::new(Some(RGBA::new(200, 10, 10, 255)), Some(RGBA::new(9, 9, 90, 255)), FaceAttrs::EMPTY)
+}
+
+const NSYM: usize = 12;
+const SYM_NAMES: [&str; NSYM] = ["a", "é", "世", "U+0301", "NUL", "\\n", "\\t", "\\r", "glyph(gl)", "glyph(世x)", "img1x1", "img2x2"];
+const SYM_CHARS: [char; 8] = ['a', 'é', '世', '\u{301}', '\0', '\n', '\t', '\r'];
+const NCHARSYM: usize = 8;
+
+struct Alphabet {
+    glyph_n: Glyph,
+    glyph_w: Glyph,
+    img1: Image,
+    img2: Image,
+    cells: Vec<Cell>,
+}
+
+static ALPHA: LazyLock<Alphabet> = LazyLock::new(|| {
+    let glyph_n = make_glyph(Size::new(1, 2), "gl");
+    let glyph_w = make_glyph(Size::new(1, 3), "世x");
+    let img1 = image_cells(1, 1, 10);
+    let img2 = image_cells(2, 2, 20);
+    assert_eq!(img1.size_cells(PPC), Size::new(1, 1));
+    assert_eq!(img2.size_cells(PPC), Size::new(2, 2));
+    let mut cells: Vec<Cell> = SYM_CHARS.iter().map(|c| Cell::new_char(pen(), *c)).collect();
+    cells.push(Cell::new_glyph(pen(), glyph_n.clone()));
+    cells.push(Cell::new_glyph(pen(), glyph_w.clone()));
+    cells.push(Cell::new_image(img1.clone()).with_face(pen()));
+    cells.push(Cell::new_image(img2.clone()).with_face(pen()));
+    Alphabet { glyph_n, glyph_w, img1, img2, cells }
+});
+
+/// What a cell is, as far as the oracle is concerned.
+#[derive(Clone, Copy, PartialEq, Eq, Hash, Debug)]
+enum Tok {
+    Ch(char),
+    Glyph(u8),
+    Img(u8),
+    Other,
+}
+
+impl Tok {
+    fn show(&self) -> String {
+        match self {
+            Tok::Ch(c) if (*c as u32) < 0x20 || *c == '\u{301}' => format!("U+{:04X}", *c as u32),
+            Tok::Ch(c) => c.to_string(),
+            Tok::Glyph(0) => "<glyph gl>".into(),
+            Tok::Glyph(_) => "<glyph 世x>".into(),
+            Tok::Img(0) => "<img1x1>".into(),
+            Tok::Img(_) => "<img2x2>".into(),
+            Tok::Other => "<?>".into(),
+        }
+    }
+}
+
+fn tok_of(cell: &Cell) -> Tok {
+    match cell.kind() {
+        CellKind::Char(c) => Tok::Ch(*c),
+        CellKind::Glyph(g) => {
+            if *g == ALPHA.glyph_n {
+                Tok::Glyph(0)
+            } else if *g == ALPHA.glyph_w {
+                Tok::Glyph(1)
+            } else {
+                Tok::Other
+            }
+        }
+        CellKind::Image(i) => {
+            if *i == ALPHA.img1 {
+                Tok::Img(0)
+            } else if *i == ALPHA.img2 {
+                Tok::Img(1)
+            } else {
+                Tok::Other
+            }
+        }
+    }
+}
+
+/// Reference widths (Unicode East Asian Width: 世 is wide; é, a narrow; combining and controls 0).
+fn ref_char_width(c: char) -> usize {
+    match c {
+        'a' | 'é' | 'g' | 'l' | 'x' => 1,
+        '世' => 2,
+        _ => 0,
+    }
+}
+
+/// Printable items of a symbol, in order: (token, width in columns); control characters are
+/// returned as `Tok::Ch` with width 0 and handled by the caller.
+fn expand(sym: usize, glyphs: bool) -> Vec<(Tok, usize)> {
+    match sym {
+        0..=7 => vec![(Tok::Ch(SYM_CHARS[sym]), ref_char_width(SYM_CHARS[sym]))],
+        8 => {
+            if glyphs {
+                vec![(Tok::Glyph(0), 2)]
+            } else {
+                "gl".chars().map(|c| (Tok::Ch(c), ref_char_width(c))).collect()
+            }
+        }
+        9 => {
+            if glyphs {
+                vec![(Tok::Glyph(1), 3)]
+            } else {
+                "世x".chars().map(|c| (Tok::Ch(c), ref_char_width(c))).collect()
+            }
+        }
+        10 => vec![(Tok::Img(0), 1)],
+        11 => vec![(Tok::Img(1), 2)],
+        _ => unreachable!(),
+    }
+}
+
+/// Expected tokens on the surface (reference model of the statement).
+/// wraps on: every printable cell; wraps off: those with `col + width <= max_width`.
+fn expected_tokens(seq: &[u8], glyphs: bool, wraps: bool, max_width: usize) -> Vec<Tok> {
+    let mut out = vec![];
+    let mut col = 0usize;
+    for s in seq {
+        for (tok, width) in expand(*s as usize, glyphs) {
+            match tok {
+                Tok::Ch('\n') => col = 0,
+                Tok::Ch('\r') => col = 0,
+                Tok::Ch('\t') => {
+                    if col < max_width {
+                        col = ((col / 8 + 1) * 8).min(max_width);
+                    }
+                }
+                _ if width == 0 => {}
+                _ => {
+                    if wraps {
+                        out.push(tok);
+                    } else if col + width <= max_width {
+                        out.push(tok);
+                        col += width;
+                    }
+                }
+            }
+        }
+    }
+    out
+}
+
+// ---------------------------------------------------------------------------------------------
+// canvas and placements
+// ---------------------------------------------------------------------------------------------
+
+const CH: usize = 7;
+const CW: usize = 10;
+const PLACEMENTS: [&str; 4] = ["plain", "offset", "strided", "transposed"];
+
+fn target_shape(h: usize, w: usize, placement: usize) -> Shape {
+    let (start, row_stride, col_stride) = match placement {
+        0 => (0, CW, 1),
+        1 => (2 * CW + 3, CW, 1),
+        2 => (CW + 1, 2 * CW, 2),
+        3 => (CW + 2, 1, CW),
+        _ => unreachable!(),
+    };
+    Shape { start, end: start + (h - 1) * row_stride + w * col_stride, width: w, height: h, row_stride, col_stride }
+}
+
+/// bit mask of the canvas offsets that belong to the view (harness arithmetic)
+fn inside_mask(shape: &Shape) -> u128 {
+    let mut m = 0u128;
+    for r in 0..shape.height {
+        for c in 0..shape.width {
+            let off = shape.start + r * shape.row_stride + c * shape.col_stride;
+            assert!(off < CH * CW, "placement outside canvas");
+            assert!(m >> off & 1 == 0, "placement aliases");
+            m |= 1 << off;
+        }
+    }
+    m
+}
+
+static FRESH: LazyLock<Vec<Cell>> = LazyLock::new(|| vec![sentinel(); CH * CW]);
+
+fn fresh_canvas() -> Vec<Cell> {
+    FRESH.clone()
+}
+
+fn show_canvas(data: &[Cell], width: usize) -> String {
+    let mut s = String::new();
+    for (i, cell) in data.iter().enumerate() {
+        if i % width == 0 {
+            s.push_str("\n    |");
+        }
+        let t = tok_of(cell);
+        let ch = match t {
+            Tok::Ch(c) if c == SENT_CHAR && *cell != sentinel() => '%', // face touched
+            Tok::Ch(c) if (c as u32) < 0x20 => '^',
+            Tok::Ch(c) => c,
+            Tok::Glyph(_) => 'G',
+            Tok::Img(_) => 'I',
+            Tok::Other => '?',
+        };
+        s.push(ch);
+    }
+    s
+}
+
+#[derive(Clone, Copy, Debug, PartialEq, Eq)]
+struct Config {
+    h: usize,
+    w: usize,
+    placement: usize,
+    wraps: bool,
+    glyphs: bool,
+    cursor_last: bool,
+}
+
+impl Config {
+    fn json(&self) -> Value {
+        json!({"h": self.h, "w": self.w, "placement": PLACEMENTS[self.placement], "wraps": self.wraps,
+               "glyphs": self.glyphs, "cursor_last": self.cursor_last})
+    }
+    fn from_json(v: &Value) -> Result<Self, String> {
+        Ok(Config {
+            h: v["h"].as_u64().ok_or("h")? as usize,
+            w: v["w"].as_u64().ok_or("w")? as usize,
+            placement: PLACEMENTS.iter().position(|p| Some(*p) == v["placement"].as_str()).ok_or("placement")?,
+            wraps: v["wraps"].as_bool().ok_or("wraps")?,
+            glyphs: v["glyphs"].as_bool().ok_or("glyphs")?,
+            cursor_last: v["cursor_last"].as_bool().ok_or("cursor_last")?,
+        })
+    }
+}
+
+const PATHS: [&str; 5] = ["put_cell", "io_write", "utf8_writer", "tty_writer", "text_view"];
+const P_PUT: usize = 0;
+const P_IO: usize = 1;
+const P_UTF8: usize = 2;
+const P_TTY: usize = 3;
+const P_TEXT: usize = 4;
+
+const SGR_TOKENS: [&str; 3] = ["\x1b[1m", "\x1b[m", "\x1b[31m"];
+
+fn seq_chars(seq: &[u8]) -> Vec<char> {
+    seq.iter().map(|s| SYM_CHARS[*s as usize]).collect()
+}
+
+fn utf8_bytes(seq: &[u8]) -> Vec<u8> {
+    seq_chars(seq).iter().collect::<String>().into_bytes()
+}
+
+fn tty_bytes(seq: &[u8]) -> Vec<u8> {
+    let mut s = String::new();
+    for (i, c) in seq_chars(seq).iter().enumerate() {
+        if i > 0 {
+            s.push_str(SGR_TOKENS[(i - 1) % 3]);
+        }
+        s.push(*c);
+    }
+    s.into_bytes()
+}
+
+struct Ctxs {
+    on: ViewContext,
+    off: ViewContext,
+}
+
+impl Ctxs {
+    fn new() -> Self {
+        Self { on: view_ctx(true), off: view_ctx(false) }
+    }
+    fn get(&self, glyphs: bool) -> &ViewContext {
+        if glyphs {
+            &self.on
+        } else {
+            &self.off
+        }
+    }
+}
+
+/// Execute one path on a fresh canvas. `parts` = lengths of the write calls (byte paths).
+fn execute(ctxs: &Ctxs, seq: &[u8], cfg: &Config, path: usize, parts: Option<&[usize]>) -> Result<Vec<Cell>, String> {
+    let mut data = fresh_canvas();
+    let shape = target_shape(cfg.h, cfg.w, cfg.placement);
+    let ctx = ctxs.get(cfg.glyphs);
+    {
+        let mut view = SurfaceMutView::new(shape, &mut data[..]);
+        if path == P_TEXT {
+            let mut text = Text::new().with_wraps(cfg.wraps);
+            for s in seq {
+                text.put_cell(ALPHA.cells[*s as usize].clone());
+            }
+            let mut store = ViewLayoutStore::new();
+            let layout = text
+                .layout_new(ctx, BoxConstraint::loose(Size::new(cfg.h, cfg.w)), &mut store)
+                .map_err(|e| format!("layout error {e:?}"))?;
+            text.render(ctx, view, layout.view()).map_err(|e| format!("render error {e:?}"))?;
+        } else {
+            let mut writer = view.writer(ctx).with_wraps(cfg.wraps).with_face(pen());
+            if cfg.cursor_last {
+                writer.set_cursor(Position::new(0, cfg.w - 1));
+            }
+            match path {
+                P_PUT => {
+                    for s in seq {
+                        writer.put_cell(ALPHA.cells[*s as usize].clone());
+                    }
+                }
+                P_IO | P_UTF8 | P_TTY => {
+                    let bytes = if path == P_TTY { tty_bytes(seq) } else { utf8_bytes(seq) };
+                    let whole = [bytes.len()];
+                    let parts: &[usize] = parts.unwrap_or(&whole);
+                    let mut off = 0;
+                    macro_rules! feed {
+                        ($w:expr) => {
+                            for p in parts {
+                                if *p == 0 {
+                                    continue;
+                                }
+                                $w.write_all(&bytes[off..off + p]).map_err(|e| format!("write error {e}"))?;
+                                off += p;
+                            }
+                        };
+                    }
+                    match path {
+                        P_IO => feed!(writer),
+                        P_UTF8 => {
+                            let mut w = writer.utf8_writer();
+                            feed!(w)
+                        }
+                        _ => {
+                            let mut w = writer.tty_writer();
+                            feed!(w)
+                        }
+                    }
+                }
+                _ => unreachable!(),
+            }
+        }
+    }
+    Ok(data)
+}
+
+fn outside_untouched(data: &[Cell], inside: u128) -> Option<usize> {
+    let s = &FRESH[0];
+    (0..CH * CW).find(|off| inside >> off & 1 == 0 && data[*off] != *s)
+}
+
+fn canvas_hash(data: &[Cell]) -> u64 {
+    let toks: Vec<(Tok, Face)> = data.iter().map(|c| (tok_of(c), c.face())).collect();
+    hash64(&toks)
+}
+
+fn kinds_equal(a: &[Cell], b: &[Cell]) -> bool {
+    a.iter().zip(b).all(|(x, y)| x.kind() == y.kind())
+}
+
+// ---------------------------------------------------------------------------------------------
+// the three sub-checks, each usable from `run` and from `replay`
+// ---------------------------------------------------------------------------------------------
+
+struct Found {
+    kind: String,
+    detail: String,
+}
+
+/// containment (+ panic) for one path; returns the canvas for further comparisons
+fn check_contain(ctxs: &Ctxs, seq: &[u8], cfg: &Config, path: usize, parts: Option<&[usize]>) -> Result<Vec<Cell>, Found> {
+    let inside = inside_mask(&target_shape(cfg.h, cfg.w, cfg.placement));
+    match catch(|| execute(ctxs, seq, cfg, path, parts)) {
+        Err(p) => Err(Found { kind: p.key(), detail: format!("panicked: {} ({}:{})", p.message, p.file, p.line) }),
+        Ok(Err(e)) => Err(Found { kind: "error".into(), detail: e }),
+        Ok(Ok(data)) => match outside_untouched(&data, inside) {
+            Some(off) => Err(Found {
+                kind: "outside-modified".into(),
+                detail: format!(
+                    "canvas cell (row {}, col {}) does not belong to the view but was changed; expected: all cells outside the view equal the sentinel; observed canvas:{}",
+                    off / CW,
+                    off % CW,
+                    show_canvas(&data, CW)
+                ),
+            }),
+            None => Ok(data),
+        },
+    }
+}
+
+/// oracle 3 for one (sequence, wraps, glyphs, W)
+fn check_text(ctxs: &Ctxs, seq: &[u8], wraps: bool, glyphs: bool, max_width: usize) -> Result<(Size, Vec<Tok>), Found> {
+    let ctx = ctxs.get(glyphs);
+    let has_cr = seq.contains(&7);
+    let run = || -> Result<(Size, Vec<Tok>, Vec<Tok>, bool), String> {
+        let mut text = Text::new().with_wraps(wraps);
+        for s in seq {
+            text.put_cell(ALPHA.cells[*s as usize].clone());
+        }
+        let mut store = ViewLayoutStore::new();
+        let layout = text
+            .layout_new(ctx, BoxConstraint::loose(Size::new(1000, max_width)), &mut store)
+            .map_err(|e| format!("layout error {e:?}"))?;
+        let size = layout.size();
+        let sent = sentinel();
+        let scan = |surf: &SurfaceOwned<Cell>, rows: std::ops::Range<usize>| -> Vec<Tok> {
+            let mut v = vec![];
+            for row in rows {
+                for col in 0..surf.width() {
+                    let cell = surf.get(Position::new(row, col)).unwrap();
+                    match tok_of(cell) {
+                        Tok::Ch(c) if c == SENT_CHAR => {}
+                        t => v.push(t),
+                    }
+                }
+            }
+            v
+        };
+        // exact size
+        let mut surf = SurfaceOwned::new_with(size, |_| sent.clone());
+        text.render(ctx, surf.as_mut(), layout.view()).map_err(|e| format!("render error {e:?}"))?;
+        let exact = scan(&surf, 0..size.height);
+        // taller surface with the layout stretched to it: nothing may land below the reported height
+        let tall_size = Size::new(size.height + 3, size.width);
+        let mut store2 = ViewLayoutStore::new();
+        let mut tall_layout = text
+            .layout_new(ctx, BoxConstraint::loose(Size::new(1000, max_width)), &mut store2)
+            .map_err(|e| format!("layout error {e:?}"))?;
+        tall_layout.set_size(tall_size);
+        let mut tall = SurfaceOwned::new_with(tall_size, |_| sent.clone());
+        text.render(ctx, tall.as_mut(), tall_layout.view()).map_err(|e| format!("render error {e:?}"))?;
+        let tall_top = scan(&tall, 0..size.height);
+        let below = !scan(&tall, size.height..tall_size.height).is_empty();
+        Ok((size, exact, tall_top, below))
+    };
+    let (size, exact, tall_top, below) = match catch(run) {
+        Err(p) => return Err(Found { kind: p.key(), detail: format!("panicked: {} ({}:{})", p.message, p.file, p.line) }),
+        Ok(Err(e)) => return Err(Found { kind: "error".into(), detail: e }),
+        Ok(Ok(v)) => v,
+    };
+    let show = |v: &[Tok]| v.iter().map(|t| t.show()).collect::<Vec<_>>().join(" ");
+    if size.width > max_width {
+        return Err(Found { kind: "width-exceeds-max".into(), detail: format!("layout reported {size:?} for max width {max_width}") });
+    }
+    if below || tall_top != exact {
+        return Err(Found {
+            kind: "render-below-reported-height".into(),
+            detail: format!(
+                "layout reported {:?} for max width {}; rendering into a surface 3 rows taller places cells below row {} or differs: exact=[{}] taller(top)=[{}] below={}",
+                size, max_width, size.height, show(&exact), show(&tall_top), below
+            ),
+        });
+    }
+    if !has_cr {
+        let expected = expected_tokens(seq, glyphs, wraps, max_width);
+        if exact != expected {
+            let is_subseq = {
+                let mut it = expected.iter();
+                exact.iter().all(|t| it.any(|e| e == t))
+            };
+            let mut a = exact.clone();
+            let mut b = expected.clone();
+            a.sort_by_key(|t| t.show());
+            b.sort_by_key(|t| t.show());
+            let kind = if is_subseq && exact.len() < expected.len() {
+                "cell-lost"
+            } else if a == b {
+                "order"
+            } else {
+                "mismatch"
+            };
+            return Err(Found {
+                kind: format!("{}{}", if wraps { "" } else { "nowrap-" }, kind),
+                detail: format!(
+                    "max width {}, wraps {}, glyphs {}: layout reported {:?}; expected cells on the surface (row-major): [{}]; observed: [{}]",
+                    max_width, wraps, glyphs, size, show(&expected), show(&exact)
+                ),
+            });
+        }
+    }
+    Ok((size, exact))
+}
+
+fn partitions_for(n: usize) -> (Vec<Vec<usize>>, bool) {
+    if n <= 1 {
+        return (vec![], true);
+    }
+    if n <= 12 {
+        ((1..1u64 << (n - 1)).map(|m| cuts_from_mask(n, m)).collect(), true)
+    } else {
+        let mut v = partitions_upto_cuts(n, 2);
+        v.remove(0); // the single write is the reference
+        v.push(vec![1; n]);
+        (v, false)
+    }
+}
+
+fn seq_from_index(mut idx: u64, len: usize, radix: u64) -> Vec<u8> {
+    let mut v = vec![0u8; len];
+    for i in (0..len).rev() {
+        v[i] = (idx % radix) as u8;
+        idx /= radix;
+    }
+    v
+}
+
+fn seq_json(seq: &[u8]) -> Value {
+    json!(seq.iter().map(|s| SYM_NAMES[*s as usize]).collect::<Vec<_>>())
+}
+
+fn seq_from_json(v: &Value) -> Result<Vec<u8>, String> {
+    v.as_array()
+        .ok_or("seq")?
+        .iter()
+        .map(|s| SYM_NAMES.iter().position(|n| Some(*n) == s.as_str()).map(|p| p as u8).ok_or_else(|| "bad symbol".to_string()))
+        .collect()
+}
+
+fn all_configs(glyph_dim: bool) -> Vec<Config> {
+    let mut v = vec![];
+    for h in 1..=3 {
+        for w in 1..=5 {
+            for placement in 0..4 {
+                for wraps in [true, false] {
+                    for glyphs in if glyph_dim { vec![true, false] } else { vec![false] } {
+                        for cursor_last in [false, true] {
+                            v.push(Config { h, w, placement, wraps, glyphs, cursor_last });
+                        }
+                    }
+                }
+            }
+        }
+    }
+    v
+}
+
+/// medium configuration set (60): every size x {strided, transposed} x wraps, cursor at the origin
+fn medium_configs() -> Vec<Config> {
+    let mut v = vec![];
+    for h in 1..=3 {
+        for w in 1..=5 {
+            for placement in [2, 3] {
+                for wraps in [true, false] {
+                    v.push(Config { h, w, placement, wraps, glyphs: false, cursor_last: false });
+                }
+            }
+        }
+    }
+    v
+}
+
+/// reduced configuration sets used for the chunking check on long byte strings (thorough tier)
+fn reduced_configs(sizes: &[(usize, usize)]) -> Vec<Config> {
+    let mut v = vec![];
+    for (h, w) in sizes {
+        for placement in [2, 3] {
+            for wraps in [true, false] {
+                v.push(Config { h: *h, w: *w, placement, wraps, glyphs: false, cursor_last: false });
+            }
+        }
+    }
+    v
+}
+
+pub fn run(ctx: &Ctx) -> Result<Report, String> {
+    let max_len: usize = ctx.tier.pick(4, 6);
+    // chunking: configuration set per sequence length (index = length)
+    let cfg_full = all_configs(false);
+    let cfg_medium = medium_configs();
+    let cfg_12 = reduced_configs(&[(1, 1), (2, 3), (3, 5)]);
+    let cfg_2: Vec<Config> = reduced_configs(&[(2, 3)]).into_iter().filter(|c| c.placement == 2).collect();
+    // (the tty strings carry SGR tokens and are 4..12 bytes longer, hence their own table)
+    let chunk_cfgs: Vec<&Vec<Config>> = match ctx.tier {
+        Tier::Quick => vec![&cfg_full, &cfg_full, &cfg_full, &cfg_full, &cfg_medium],
+        Tier::Thorough => vec![&cfg_full, &cfg_full, &cfg_full, &cfg_full, &cfg_full, &cfg_12, &cfg_2],
+    };
+    let chunk_cfgs_tty: Vec<&Vec<Config>> = match ctx.tier {
+        Tier::Quick => vec![&cfg_full, &cfg_full, &cfg_full, &cfg_medium, &cfg_12],
+        Tier::Thorough => vec![&cfg_full, &cfg_full, &cfg_full, &cfg_full, &cfg_medium, &cfg_12, &cfg_2],
+    };
+    let chunk_max_len: usize = chunk_cfgs.len() - 1;
+    let viol = Violations::new();
+    let samples = Samples::new(ctx.seed);
+    let ev_put = AtomicU64::new(0);
+    let ev_text_view = AtomicU64::new(0);
+    let ev_bytes = AtomicU64::new(0);
+    let ev_chunk = AtomicU64::new(0);
+    let ev_chunk_capped = AtomicU64::new(0);
+    let ev_text = AtomicU64::new(0);
+    let ev_cross = AtomicU64::new(0);
+    let nontrivial = AtomicU64::new(0);
+    let capped = std::sync::atomic::AtomicBool::new(false);
+    let outcomes: Vec<Mutex<HashSet<u64>>> = (0..64).map(|_| Mutex::new(HashSet::new())).collect();
+    let text_outcomes: Vec<Mutex<HashSet<u64>>> = (0..64).map(|_| Mutex::new(HashSet::new())).collect();
+    let configs_all = all_configs(true);
+    LazyLock::force(&ALPHA);
+    let fresh_hash = canvas_hash(&FRESH);
+
+    // ---- part A: cell level (put_cell, Text view into the target, oracle 3) over all 12 symbols
+    let mut seq_count_by_len = vec![];
+    for len in 0..=max_len {
+        let total = (NSYM as u64).pow(len as u32);
+        seq_count_by_len.push(total);
+        (0..total).into_par_iter().for_each_init(Ctxs::new, |ctxs, idx| {
+            if capped.load(Ordering::Relaxed) {
+                return;
+            }
+            if idx % 4096 == 0 && ctx.over_cap() {
+                capped.store(true, Ordering::Relaxed);
+                return;
+            }
+            let seq = seq_from_index(idx, len, NSYM as u64);
+            let mut local_out: Vec<u64> = vec![];
+            let mut nt = 0u64;
+            let has_glyph = seq.iter().any(|s| *s == 8 || *s == 9);
+            for cfg in &configs_all {
+                // glyph capability is irrelevant when the sequence has no glyph: explore it once
+                if !has_glyph && cfg.glyphs {
+                    continue;
+                }
+                // the longest sequences of the thorough tier: strided and transposed placements only
+                if len > 5 && cfg.placement < 2 {
+                    continue;
+                }
+                for path in [P_PUT, P_TEXT] {
+                    if path == P_TEXT && cfg.cursor_last {
+                        continue;
+                    }
+                    if path == P_PUT {
+                        ev_put.fetch_add(1, Ordering::Relaxed);
+                    } else {
+                        ev_text_view.fetch_add(1, Ordering::Relaxed);
+                    }
+                    match check_contain(ctxs, &seq, cfg, path, None) {
+                        Ok(data) => {
+                            let h = canvas_hash(&data);
+                            if h != fresh_hash {
+                                nt += 1;
+                            }
+                            if path == P_PUT {
+                                local_out.push(h);
+                            }
+                        }
+                        Err(f) => viol.add(
+                            format!("{}:{}", PATHS[path], f.kind),
+                            format!("{} of [{}] into {}: {}", PATHS[path], seq_json(&seq), cfg.json(), f.detail),
+                            json!({"check": "contain", "seq": seq_json(&seq), "config": cfg.json(), "path": PATHS[path]}),
+                        ),
+                    }
+                }
+            }
+            // oracle 3
+            let mut local_text: Vec<u64> = vec![];
+            for wraps in [true, false] {
+                for glyphs in [true, false] {
+                    if !has_glyph && glyphs {
+                        continue;
+                    }
+                    for w in 1..=6usize {
+                        ev_text.fetch_add(1, Ordering::Relaxed);
+                        let case = || json!({"check": "text", "seq": seq_json(&seq), "wraps": wraps, "glyphs": glyphs, "max_width": w});
+                        samples.offer(hash64(&(&seq, wraps, glyphs, w)), case);
+                        match check_text(ctxs, &seq, wraps, glyphs, w) {
+                            Ok((size, toks)) => {
+                                if !toks.is_empty() {
+                                    nt += 1;
+                                }
+                                local_text.push(hash64(&(size, &toks)));
+                            }
+                            Err(f) => viol.add(
+                                format!("text:{}", f.kind),
+                                format!("Text of [{}]: {}", seq_json(&seq), f.detail),
+                                case(),
+                            ),
+                        }
+                    }
+                }
+            }
+            nontrivial.fetch_add(nt, Ordering::Relaxed);
+            for h in local_out {
+                outcomes[(h % 64) as usize].lock().unwrap().insert(h);
+            }
+            for h in local_text {
+                text_outcomes[(h % 64) as usize].lock().unwrap().insert(h);
+            }
+        });
+    }
+
+    // ---- part B: byte level (io::Write, utf8_writer, tty_writer) over the 8 character symbols
+    let mut byte_seq_counts = vec![];
+    for len in 0..=chunk_max_len {
+        let total = (NCHARSYM as u64).pow(len as u32);
+        byte_seq_counts.push(total);
+        let cfgs: &Vec<Config> = chunk_cfgs[len];
+        (0..total).into_par_iter().for_each_init(Ctxs::new, |ctxs, idx| {
+            if capped.load(Ordering::Relaxed) {
+                return;
+            }
+            if idx % 256 == 0 && ctx.over_cap() {
+                capped.store(true, Ordering::Relaxed);
+                return;
+            }
+            let seq = seq_from_index(idx, len, NCHARSYM as u64);
+            let mut nt = 0u64;
+            let parts_utf8 = partitions_for(utf8_bytes(&seq).len());
+            let parts_tty = partitions_for(tty_bytes(&seq).len());
+            for cfg in cfgs {
+                let reference = match check_contain(ctxs, &seq, cfg, P_PUT, None) {
+                    Ok(d) => d,
+                    Err(_) => continue, // reported by part A
+                };
+                for path in [P_IO, P_UTF8, P_TTY] {
+                    if path == P_TTY && !chunk_cfgs_tty[len].contains(cfg) {
+                        continue;
+                    }
+                    ev_bytes.fetch_add(1, Ordering::Relaxed);
+                    let whole = match check_contain(ctxs, &seq, cfg, path, None) {
+                        Ok(d) => d,
+                        Err(f) => {
+                            viol.add(
+                                format!("{}:{}", PATHS[path], f.kind),
+                                format!("{} of [{}] into {}: {}", PATHS[path], seq_json(&seq), cfg.json(), f.detail),
+                                json!({"check": "contain", "seq": seq_json(&seq), "config": cfg.json(), "path": PATHS[path]}),
+                            );
+                            continue;
+                        }
+                    };
+                    // cross-path agreement with put_cell
+                    ev_cross.fetch_add(1, Ordering::Relaxed);
+                    let agrees = if path == P_TTY { kinds_equal(&whole, &reference) } else { whole == reference };
+                    if !agrees {
+                        viol.add(
+                            format!("{}:differs-from-put_cell", PATHS[path]),
+                            format!(
+                                "{} of [{}] into {} gives a different canvas than put_cell of the same characters: put_cell:{} {}:{}",
+                                PATHS[path], seq_json(&seq), cfg.json(), show_canvas(&reference, CW), PATHS[path], show_canvas(&whole, CW)
+                            ),
+                            json!({"check": "cross", "seq": seq_json(&seq), "config": cfg.json(), "path": PATHS[path]}),
+                        );
+                    }
+                    if canvas_hash(&whole) != fresh_hash {
+                        nt += 1;
+                    }
+                    let (parts, full) = if path == P_TTY { &parts_tty } else { &parts_utf8 };
+                    for p in parts {
+                        if *full {
+                            ev_chunk.fetch_add(1, Ordering::Relaxed);
+                        } else {
+                            ev_chunk_capped.fetch_add(1, Ordering::Relaxed);
+                        }
+                        let case = || json!({"check": "chunk", "seq": seq_json(&seq), "config": cfg.json(), "path": PATHS[path], "parts": p});
+                        match check_contain(ctxs, &seq, cfg, path, Some(p)) {
+                            Ok(d) => {
+                                if d != whole {
+                                    viol.add(
+                                        format!("{}:chunk-dependent", PATHS[path]),
+                                        format!(
+                                            "{} of [{}] into {} split into writes of {:?} bytes differs from a single write: single:{} split:{}",
+                                            PATHS[path], seq_json(&seq), cfg.json(), p, show_canvas(&whole, CW), show_canvas(&d, CW)
+                                        ),
+                                        case(),
+                                    );
+                                }
+                            }
+                            Err(f) => {
+                                // the single write succeeded: a failure here is a dependence on the chunking
+                                let kind = if f.kind == "error" { "chunk-dependent-error".to_string() } else { f.kind.clone() };
+                                viol.add(
+                                    format!("{}:{}", PATHS[path], kind),
+                                    format!(
+                                        "{} of [{}] into {} succeeds as a single write but split into writes of {:?} bytes: {}",
+                                        PATHS[path], seq_json(&seq), cfg.json(), p, f.detail
+                                    ),
+                                    case(),
+                                )
+                            }
+                        }
+                    }
+                }
+            }
+            nontrivial.fetch_add(nt, Ordering::Relaxed);
+        });
+    }
+    let capped = capped.load(Ordering::Relaxed);
+    let distinct_canvases: usize = outcomes.iter().map(|m| m.lock().unwrap().len()).sum();
+    let distinct_text: usize = text_outcomes.iter().map(|m| m.lock().unwrap().len()).sum();
+    let g = |a: &AtomicU64| a.load(Ordering::Relaxed);
+    let evaluations = g(&ev_put) + g(&ev_text_view) + g(&ev_bytes) + g(&ev_chunk) + g(&ev_chunk_capped) + g(&ev_text);
+    let mut r = Report::new("exploration");
+    r.set("evaluations", evaluations)
+        .set("distinct_nontrivial", g(&nontrivial))
+        .set(
+            "rule",
+            "one evaluation = one execution of one path on a fresh canvas for one (symbol sequence, target size, placement, wraps, \
+             glyph capability, initial cursor[, partition of the bytes]) or one Text layout+render for (sequence, wraps, glyphs, max width); \
+             all cases distinct by construction (the glyph-capability dimension is explored only for sequences that contain a glyph); \
+             non-trivial = the execution changed at least one canvas cell / put at least one printable cell on the text surface",
+        )
+        .set("samples", samples.into_vec())
+        .set("exhaustive", !capped)
+        .set("capped", capped)
+        .set("max_sequence_length", max_len)
+        .set("symbols", json!(SYM_NAMES))
+        .set("sequences_by_length_cell_level", json!(seq_count_by_len))
+        .set("sequences_by_length_byte_level", json!(byte_seq_counts))
+        .set("configurations_cell_level", configs_all.len())
+        .set("configurations_utf8_paths_by_sequence_length", json!(chunk_cfgs.iter().map(|c| c.len()).collect::<Vec<_>>()))
+        .set("configurations_tty_path_by_sequence_length", json!(chunk_cfgs_tty.iter().map(|c| c.len()).collect::<Vec<_>>()))
+        .set("chunking_max_length", chunk_max_len)
+        .set("evaluations_put_cell", g(&ev_put))
+        .set("evaluations_text_view_into_target", g(&ev_text_view))
+        .set("evaluations_byte_paths_single_write", g(&ev_bytes))
+        .set("evaluations_all_partitions", g(&ev_chunk))
+        .set("evaluations_partitions_capped_family", g(&ev_chunk_capped))
+        .set("evaluations_text_oracle3", g(&ev_text))
+        .set("cross_path_comparisons", g(&ev_cross))
+        .set("distinct_put_cell_canvases", distinct_canvases)
+        .set("distinct_text_outcomes", distinct_text)
+        .set(
+            "partition_rule",
+            "byte strings of <= 12 bytes: all 2^(n-1) partitions; longer (tty_writer with SGR tokens, thorough length 5-6): every partition \
+             with <= 2 cuts plus the byte-at-a-time partition (exhaustive=false for that sub-space, counted separately)",
+        )
+        .set("raw_violations", viol.raw_count());
+    {
+        r.set(
+            "tier_note",
+            "cell level: every configuration for every sequence up to length 5, length 6 (thorough) with the strided and transposed \
+             placements only; byte level: configuration sets shrink with the sequence length (240 = all sizes x placements x wraps x \
+             cursor; 60 = all sizes x strided/transposed x wraps; 12 = sizes 1x1,2x3,3x5 x strided/transposed x wraps; 2 = size 2x3 \
+             strided x wraps), see configurations_*_by_sequence_length",
+        );
+    }
+    r.assume("Unicode widths: a, é, g, l, x narrow; 世 wide; U+0301, NUL and control characters zero width");
+    r.assume("tab stops every 8 columns clipped at the right edge; newline resets the column (only needed for the wraps-off expectation)");
+    r.assume("texts containing a carriage return are exempt from the exactly-once expectation (overwriting is inherent); they are still checked for containment and layout/render agreement");
+    r.assume("a panic of a writer counts as a violation; so does an io error on valid UTF-8 input (in particular one that appears only for some partitions: the outcome of writing must not depend on the chunking)");
+    r.violations = viol.into_vec();
+    Ok(r)
+}
+
+pub fn replay(w: &Value) -> Result<(bool, String), String> {
+    let ctxs = Ctxs::new();
+    let seq = seq_from_json(&w["seq"])?;
+    match w["check"].as_str().ok_or("check")? {
+        "text" => {
+            let wraps = w["wraps"].as_bool().ok_or("wraps")?;
+            let glyphs = w["glyphs"].as_bool().ok_or("glyphs")?;
+            let mw = w["max_width"].as_u64().ok_or("max_width")? as usize;
+            Ok(match check_text(&ctxs, &seq, wraps, glyphs, mw) {
+                Err(f) => (true, format!("[{}] {}", f.kind, f.detail)),
+                Ok((size, toks)) => (
+                    false,
+                    format!(
+                        "layout {:?}; surface holds exactly the expected cells [{}]",
+                        size,
+                        toks.iter().map(|t| t.show()).collect::<Vec<_>>().join(" ")
+                    ),
+                ),
+            })
+        }
+        check @ ("contain" | "chunk" | "cross") => {
+            let cfg = Config::from_json(&w["config"])?;
+            let path = PATHS.iter().position(|p| Some(*p) == w["path"].as_str()).ok_or("path")?;
+            let parts: Option<Vec<usize>> = w["parts"].as_array().map(|a| a.iter().map(|x| x.as_u64().unwrap_or(0) as usize).collect());
+            let got = check_contain(&ctxs, &seq, &cfg, path, parts.as_deref());
+            let data = match got {
+                Err(f) => return Ok((true, format!("[{}] {}", f.kind, f.detail))),
+                Ok(d) => d,
+            };
+            match check {
+                "contain" => Ok((false, format!("all cells outside the view untouched:{}", show_canvas(&data, CW)))),
+                "chunk" => {
+                    let whole = check_contain(&ctxs, &seq, &cfg, path, None).map_err(|f| f.detail)?;
+                    let differs = whole != data;
+                    Ok((
+                        differs,
+                        format!(
+                            "expected (single write):{}\nobserved (writes of {:?} bytes):{}",
+                            show_canvas(&whole, CW),
+                            parts.unwrap_or_default(),
+                            show_canvas(&data, CW)
+                        ),
+                    ))
+                }
+                _ => {
+                    let reference = check_contain(&ctxs, &seq, &cfg, P_PUT, None).map_err(|f| f.detail)?;
+                    let agrees = if path == P_TTY { kinds_equal(&data, &reference) } else { data == reference };
+                    Ok((
+                        !agrees,
+                        format!("expected (put_cell):{}\nobserved ({}):{}", show_canvas(&reference, CW), PATHS[path], show_canvas(&data, CW)),
+                    ))
+                }
+            }
+        }
+        other => Err(format!("unknown check {other}")),
+    }
 }
